@@ -776,6 +776,65 @@ Proof.
 Qed.
 
 
+(* ---------- the same for arrays whose elements have different widths (whole assignments) ---------- *)
+Lemma emit_cat_full : forall ps L off s b,
+  Forall (fun p => forall s b, covered (emit_assign p 0 (tlen p)) s b <-> may_drive p s b) ps ->
+  off + fold_right (fun p acc => tlen p + acc) 0 ps <= L ->
+  (covered (emit_cat 0 L ps off) s b <-> exists k, addr_cat k s b ps off).
+Proof.
+  induction ps as [|p ps IH]; intros L off s b HF HL; cbn [emit_cat addr_cat].
+  - split; [intro H; now apply covered_nil in H|intros [k []]].
+  - inversion HF as [|? ? Hp Hr]; subst. cbn [fold_right] in HL.
+    specialize (IH L (off + tlen p) s b Hr ltac:(lia)).
+    destruct (off + tlen p <=? 0) eqn:E1.
+    { apply Nat.leb_le in E1. rewrite IH. split; intros [k H]; exists k; [now right|].
+      destruct H as [[H1 [H2 _]]|H]; [lia|assumption]. }
+    apply Nat.leb_gt in E1.
+    destruct (0 + L <=? off) eqn:E2.
+    { apply Nat.leb_le in E2. rewrite IH. split; intros [k H]; exists k; [now right|].
+      destruct H as [[H1 [H2 _]]|H]; [lia|assumption]. }
+    apply Nat.leb_gt in E2.
+    replace (if 0 <? off then 0 else 0 - off) with 0 by (destruct (0 <? off); lia).
+    replace ((if off + tlen p <=? 0 + L then off + tlen p - 0 else L) - (if 0 <? off then off - 0 else 0))
+      with (tlen p).
+    2:{ destruct (off + tlen p <=? 0 + L) eqn:E3; [|apply Nat.leb_gt in E3; lia].
+        destruct (0 <? off) eqn:E4; [lia|apply Nat.ltb_ge in E4; lia]. }
+    rewrite covered_app, IH, (Hp s b). unfold may_drive. split.
+    + intros [[k [Hk Ha]]|[k H]].
+      * exists (k + off). left. replace (k + off - off) with k by lia. repeat split; try lia. assumption.
+      * exists k. now right.
+    + intros [k [[H1 [H2 Ha]]|H]].
+      * left. exists (k - off). split; [lia|assumption].
+      * right. eauto.
+Qed.
+
+Theorem emit_assign_spec_top : forall t, wf_tgt_top t = true -> forall s b,
+  (covered (emit_assign t 0 (tlen t)) s b <-> may_drive t s b).
+Proof.
+  induction t as [s' w|a IH|a lo hi IH|a offw w st IH|ps IH|w es IH] using tgt_ind'; intros W s b.
+  - apply emit_assign_may_drive. reflexivity.
+  - simpl in W. cbn [emit_assign tlen]. rewrite (IH W s b). unfold may_drive. simpl. tauto.
+  - apply emit_assign_may_drive. exact W.
+  - apply emit_assign_may_drive. exact W.
+  - simpl in W. rewrite forallb_forall in W.
+    change (emit_assign (TCat ps) 0 (tlen (TCat ps))) with (emit_cat 0 (tlen (TCat ps)) ps 0).
+    rewrite emit_cat_full.
+    + unfold may_drive. change (addr (TCat ps)) with (fun k s b => addr_cat k s b ps 0). split.
+      * intros [k H]. exists k. split; [|assumption]. apply cat_len_ge in H. simpl in *. lia.
+      * intros [k [_ H]]. eauto.
+    + rewrite Forall_forall in *. intros p Hp s0 b0. apply IH; [assumption|]. now apply W.
+    + simpl. lia.
+  - simpl in W. rewrite forallb_forall in W. rewrite Forall_forall in IH.
+    cbn [emit_assign tlen]. rewrite covered_flat_map. unfold may_drive at 1.
+    change (addr (TSwitch w es)) with (fun k s b => addr_sw k s b es). cbn [tlen]. split.
+    + intros [e [He Hc]]. specialize (W e He). apply andb_true_iff in W as [W1 W2]. apply Nat.leb_le in W2.
+      rewrite Nat.min_r in Hc by lia. apply (IH e He W1) in Hc. destruct Hc as [k [Hk Ha]].
+      exists k. split; [lia|]. apply addr_sw_iff. eauto.
+    + intros [k [Hk Ha]]. apply addr_sw_iff in Ha as [e [He [Hke Ha]]]. exists e. split; [assumption|].
+      specialize (W e He). apply andb_true_iff in W as [W1 W2]. apply Nat.leb_le in W2.
+      rewrite Nat.min_r by lia. apply (IH e He W1). exists k. auto.
+Qed.
+
 (* ---------- the computable spec agrees with the declarative one ---------- *)
 Definition addrb_cat (k s b : nat) := fix go (ps : list tgt) (off : nat) : bool :=
   match ps with
@@ -880,6 +939,136 @@ Proof.
     + exists b0, k'. repeat split; auto. now right.
 Qed.
 
+
+(* ---------- the early check of Module._add_statement, for ALL statement lists ---------- *)
+(* bits set in the LHSMaskCollector masks of one statement's target *)
+Definition mask_claims (ms : list (nat * nat * Z)) : list bit :=
+  flat_map (fun p => let '(s, w, m) := p in map (fun b => (s, b)) (filter (fun b => Z.testbit m (Z.of_nat b)) (seq 0 w))) ms.
+Definition mbits (t : tgt) : list bit := mask_claims (lhs_mask t (-1)%Z []).
+Definition stmt_claims (stmts : list (nat * tgt)) : list (bit * nat) :=
+  flat_map (fun st => map (fun x => (x, fst st)) (mbits (snd st))) stmts.
+
+(* the `_driving` bookkeeping as one pass over (bit, domain) claims *)
+Fixpoint claim_run (cl : list (bit * nat)) (drv : list (bit * nat)) : list (bit * nat) + bit :=
+  match cl with
+  | [] => inl drv
+  | (x, d) :: r =>
+      match find (fun p => bit_eqb (fst p) x) drv with
+      | Some (_, d') => if Nat.eqb d' d then claim_run r drv else inr x
+      | None => claim_run r ((x, d) :: drv)
+      end
+  end.
+
+Lemma claim_run_app a : forall b drv,
+  claim_run (a ++ b) drv = match claim_run a drv with inl d' => claim_run b d' | inr e => inr e end.
+Proof.
+  induction a as [|[x d] a IH]; intros b drv; simpl; [reflexivity|].
+  destruct (find _ drv) as [[y d']|]; [destruct (Nat.eqb d' d); [apply IH|reflexivity]|apply IH].
+Qed.
+
+Lemma early_bits_run s dm m : forall bits drv,
+  early_bits s dm m bits drv =
+  claim_run (map (fun b => ((s, b), dm)) (filter (fun b => Z.testbit m (Z.of_nat b)) bits)) drv.
+Proof.
+  induction bits as [|b r IH]; intros drv; simpl; [reflexivity|].
+  destruct (Z.testbit m (Z.of_nat b)); simpl; [|apply IH].
+  destruct (find _ drv) as [[y d']|]; [destruct (Nat.eqb d' dm); [apply IH|reflexivity]|apply IH].
+Qed.
+
+Lemma early_masks_run dm : forall ms drv,
+  early_masks dm ms drv = claim_run (map (fun x => (x, dm)) (mask_claims ms)) drv.
+Proof.
+  induction ms as [|[[s w] m] r IH]; intros drv; simpl; [reflexivity|].
+  rewrite map_app, claim_run_app, early_bits_run, map_map.
+  destruct (claim_run _ drv); [apply IH|reflexivity].
+Qed.
+
+Lemma early_stmts_run : forall stmts drv,
+  early_stmts stmts drv = match claim_run (stmt_claims stmts) drv with inl _ => None | inr e => Some e end.
+Proof.
+  induction stmts as [|[dm t] r IH]; intros drv; simpl; [reflexivity|].
+  rewrite claim_run_app, early_masks_run. unfold mbits. simpl.
+  destruct (claim_run _ drv); [apply IH|reflexivity].
+Qed.
+
+(* no bit is claimed by two different domains *)
+Definition functional (l : list (bit * nat)) : Prop :=
+  forall x d1 d2, In (x, d1) l -> In (x, d2) l -> d1 = d2.
+
+Lemma find_bit_some x drv y d : find (fun p : bit * nat => bit_eqb (fst p) x) drv = Some (y, d) -> In (x, d) drv.
+Proof. intro H. apply find_some in H as [H1 H2]. simpl in H2. apply bit_eqb_eq in H2. now subst. Qed.
+Lemma find_bit_none x drv d : find (fun p : bit * nat => bit_eqb (fst p) x) drv = None -> ~ In (x, d) drv.
+Proof.
+  intros H Hin. apply (find_none _ _ H) in Hin. simpl in Hin.
+  assert (bit_eqb x x = true) by now apply bit_eqb_eq. congruence.
+Qed.
+
+Lemma claim_run_spec : forall cl drv, functional drv ->
+  ((exists d', claim_run cl drv = inl d') <-> functional (drv ++ cl)).
+Proof.
+  induction cl as [|[x d] r IH]; intros drv F; simpl.
+  - rewrite app_nil_r. split; [intros _; exact F|intros _; eauto].
+  - destruct (find _ drv) as [[y d']|] eqn:E.
+    + apply find_bit_some in E. destruct (Nat.eqb d' d) eqn:Ed.
+      * apply Nat.eqb_eq in Ed. subst d'. rewrite (IH drv F).
+        assert (M : forall z, In z (drv ++ (x, d) :: r) <-> In z (drv ++ r)).
+        { intro z. rewrite !in_app_iff. cbn [In]. split; [intros [H|[H|H]]; auto; subst; auto|intros [H|H]; auto]. }
+        split; intros G a d1 d2 H1 H2; apply (G a d1 d2); apply M; assumption.
+      * apply Nat.eqb_neq in Ed. split; [intros [? H]; discriminate|].
+        intro G. exfalso. apply Ed. apply (G x d' d); apply in_or_app; [now left|right; now left].
+    + assert (F' : functional ((x, d) :: drv)).
+      { intros a d1 d2 [H1|H1] [H2|H2].
+        - congruence.
+        - inversion H1; subst. now apply find_bit_none with (d := d2) in E.
+        - inversion H2; subst. now apply find_bit_none with (d := d1) in E.
+        - eapply F; eassumption. }
+      rewrite (IH _ F'). split; intros G a d1 d2 H1 H2; apply (G a d1 d2);
+        repeat (rewrite in_app_iff in * || cbn [In] in * ); tauto.
+Qed.
+
+(* For ALL statement lists of one module: the DSL raises its early "Driver-driver conflict" SyntaxError exactly when
+   two statements of DIFFERENT domains have a common bit in their LHSMaskCollector masks *)
+Theorem early_conflict_iff stmts :
+  early_conflict stmts <> None <->
+  exists x d1 t1 d2 t2, d1 <> d2 /\ In (d1, t1) stmts /\ In (d2, t2) stmts /\ In x (mbits t1) /\ In x (mbits t2).
+Proof.
+  unfold early_conflict. rewrite early_stmts_run.
+  pose proof (claim_run_spec (stmt_claims stmts) [] ltac:(intros ? ? ? [])) as S. simpl in S.
+  assert (In_claims : forall x d, In (x, d) (stmt_claims stmts) <-> exists t, In (d, t) stmts /\ In x (mbits t)).
+  { intros x d. unfold stmt_claims. rewrite in_flat_map. split.
+    - intros [[dm t] [H1 H2]]. simpl in H2. apply in_map_iff in H2 as [y [E H2]]. inversion E; subst. eauto.
+    - intros [t [H1 H2]]. exists (d, t). split; [assumption|]. simpl. apply in_map_iff. eauto. }
+  split.
+  - intro H. destruct (claim_run (stmt_claims stmts) []) as [d'|e] eqn:E; [congruence|].
+    assert (NF : ~ functional (stmt_claims stmts)) by (intro G; apply S in G; destruct G; discriminate).
+    (* a non-functional finite relation has a witness: search it *)
+    assert (W : forall l : list (bit * nat), ~ functional l ->
+                exists x d1 d2, d1 <> d2 /\ In (x, d1) l /\ In (x, d2) l).
+    { clear. induction l as [|[x d] l IH]; intro NF; [exfalso; apply NF; intros ? ? ? []|].
+      destruct (find (fun p => bit_eqb (fst p) x && negb (Nat.eqb (snd p) d)) l) as [[y d']|] eqn:Ef.
+      - apply find_some in Ef as [H1 H2]. simpl in H2. apply andb_true_iff in H2 as [H2 H3].
+        apply bit_eqb_eq in H2. subst y. apply negb_true_iff, Nat.eqb_neq in H3.
+        exists x, d', d. repeat split; [assumption|now right|now left].
+      - destruct IH as [a [d1 [d2 [Hn [H1 H2]]]]].
+        + intro G. apply NF. intros a d1 d2 [H1|H1] [H2|H2].
+          * congruence.
+          * inversion H1; subst. pose proof (find_none _ _ Ef _ H2) as Hf. simpl in Hf.
+            assert (bit_eqb a a = true) by now apply bit_eqb_eq. rewrite H in Hf. simpl in Hf.
+            apply negb_false_iff, Nat.eqb_eq in Hf. congruence.
+          * inversion H2; subst. pose proof (find_none _ _ Ef _ H1) as Hf. simpl in Hf.
+            assert (bit_eqb a a = true) by now apply bit_eqb_eq. rewrite H in Hf. simpl in Hf.
+            apply negb_false_iff, Nat.eqb_eq in Hf. congruence.
+          * eapply G; eassumption.
+        + exists a, d1, d2. repeat split; [assumption|now right|now right]. }
+    destruct (W _ NF) as [x [d1 [d2 [Hn [H1 H2]]]]].
+    apply In_claims in H1 as [t1 [A1 B1]]. apply In_claims in H2 as [t2 [A2 B2]].
+    exists x, d1, t1, d2, t2. auto.
+  - intros [x [d1 [t1 [d2 [t2 [Hn [A1 [A2 [B1 B2]]]]]]]]].
+    destruct (claim_run (stmt_claims stmts) []) as [d'|e] eqn:E; [|discriminate].
+    exfalso. apply Hn. assert (G : functional (stmt_claims stmts)) by (apply S; eauto).
+    apply (G x d1 d2); apply In_claims; eauto.
+Qed.
+
 (* ---------- the systematic family of the harness, inside Coq ---------- *)
 Definition ranges4 : list (nat * nat) :=
   [(0,1);(0,2);(0,3);(0,4);(1,2);(1,3);(1,4);(2,3);(2,4);(3,4)].
@@ -978,3 +1167,202 @@ Proof.
   repeat split; try (vm_compute; reflexivity).
   eapply reach_step with (k := NC 1 1); [vm_compute; now left|]. apply reach_one. vm_compute. now left.
 Qed.
+
+(* ================================================================================================ *)
+(* Part III — the design-level oracle decides the dependency SPEC                                   *)
+(* ================================================================================================ *)
+Lemma bdedup_In x : forall l, In x (bdedup l) <-> In x l.
+Proof.
+  induction l as [|y l IH]; simpl; [tauto|].
+  destruct (bmem y l) eqn:E.
+  - rewrite IH. apply bmem_In in E. split; [auto|intros [<-|H]; auto].
+  - simpl. rewrite IH. tauto.
+Qed.
+Lemma bdedup_NoDup : forall l, NoDup (bdedup l).
+Proof.
+  induction l as [|y l IH]; simpl; [constructor|].
+  destruct (bmem y l) eqn:E; [assumption|]. constructor; [|assumption].
+  rewrite bdedup_In. intro H. apply bmem_In in H. congruence.
+Qed.
+Lemma bcode_inj x y : bcode x = bcode y -> x = y.
+Proof.
+  unfold bcode. intro H. injection H as H.
+  rewrite <- (Cantor.cancel_of_to x), <- (Cantor.cancel_of_to y). now rewrite H.
+Qed.
+
+Lemma conn_from_find c : forall D j q,
+  find (fun p : nat * net => Nat.eqb (fst p) c) (conn_from D j) = Some q ->
+  exists i x, nth_error D i = Some x /\ c = bcode x /\ q = (c, NC (S (j + i)) 0).
+Proof.
+  induction D as [|x D IH]; intros j q H; cbn [conn_from find fst] in H; [discriminate|].
+  destruct (Nat.eqb (bcode x) c) eqn:E.
+  - apply Nat.eqb_eq in E. inversion H; subst. exists 0, x. rewrite Nat.add_0_r. repeat split; reflexivity.
+  - apply IH in H as [i [y [H1 [H2 H3]]]]. exists (S i), y. repeat split; auto.
+    rewrite H3. replace (S j + i) with (j + S i) by lia. reflexivity.
+Qed.
+Lemma conn_from_found : forall D j i x, NoDup D -> nth_error D i = Some x ->
+  find (fun p : nat * net => Nat.eqb (fst p) (bcode x)) (conn_from D j) = Some (bcode x, NC (S (j + i)) 0).
+Proof.
+  induction D as [|y D IH]; intros j i x N H; [destruct i; discriminate|].
+  inversion N as [|? ? Hy N']; subst. cbn [conn_from find fst]. destruct i as [|i]; cbn [nth_error] in H.
+  - inversion H; subst. rewrite Nat.eqb_refl, Nat.add_0_r. reflexivity.
+  - destruct (Nat.eqb (bcode y) (bcode x)) eqn:E.
+    + apply Nat.eqb_eq, bcode_inj in E. subst. exfalso. apply Hy. eapply nth_error_In; eassumption.
+    + rewrite (IH (S j) i x N' H). do 3 f_equal. lia.
+Qed.
+
+Section Oracle.
+Variable sts : list cstmt.
+Let deps := design_deps sts.
+Let D := bdedup (map fst deps).
+Let g := dep_graph_netlist deps.
+
+Lemma deps_of_In x y : In y (deps_of deps x) <-> dep1 sts x y.
+Proof.
+  unfold deps_of, dep1. fold deps. rewrite in_flat_map. split.
+  - intros [[a l] [H1 H2]]. simpl in H2. destruct (bit_eqb a x) eqn:E; [|destruct H2].
+    apply bit_eqb_eq in E. subst. eauto.
+  - intros [l [H1 H2]]. exists (x, l). split; [assumption|]. simpl.
+    assert (bit_eqb x x = true) as -> by now apply bit_eqb_eq. assumption.
+Qed.
+
+Lemma g_cells j : nth_error (cells g) (S j) =
+  option_map (fun x => CMatch 1 (NC 0 1) (map benc (deps_of deps x))) (nth_error D j).
+Proof. unfold g, dep_graph_netlist. simpl. fold D. apply nth_error_map. Qed.
+
+(* the owner of a net: the signal bit it stands for *)
+Definition own (n : net) (x : bit) : Prop :=
+  n = benc x \/ exists j b, n = NC (S j) b /\ nth_error D j = Some x.
+Definition is_cellnet (n : net) : bool := match n with NC _ _ => true | NL _ => false end.
+
+Lemma succs_late c m : In m (succs g (NL c)) ->
+  exists i x, nth_error D i = Some x /\ c = bcode x /\ m = NC (S i) 0.
+Proof.
+  unfold succs. simpl. unfold conn_of, g, dep_graph_netlist. simpl. fold D.
+  destruct (find _ _) as [q|] eqn:E; [|intros []].
+  apply conn_from_find in E as [i [x [H1 [H2 H3]]]]. subst q. simpl. intros [<-|[]]. eauto.
+Qed.
+Lemma succs_cell j b m : In m (succs g (NC (S j) b)) ->
+  exists x, nth_error D j = Some x /\ (m = NC 0 1 \/ exists y, m = benc y /\ dep1 sts x y).
+Proof.
+  unfold succs. cbn [is_const]. rewrite g_cells. destruct (nth_error D j) as [x|]; [|intros []].
+  simpl. intros [<-|H]; exists x; split; auto. right.
+  apply in_map_iff in H as [y [<- H]]. exists y. split; [reflexivity|now apply deps_of_In].
+Qed.
+Lemma succs_top b m : ~ In m (succs g (NC 0 b)).
+Proof. unfold succs. destruct (is_const (NC 0 b)); [intros []|]. simpl. intros []. Qed.
+
+Lemma edge_owner n m : edge g n m -> exists x, own n x.
+Proof.
+  unfold edge. destruct n as [[|j] b|c]; intro H.
+  - now apply succs_top in H.
+  - apply succs_cell in H as [x [H _]]. exists x. right. eauto.
+  - apply succs_late in H as [i [x [H1 [H2 _]]]]. exists x. left. unfold benc. congruence.
+Qed.
+Lemma own_fun n x y : own n x -> own n y -> x = y.
+Proof.
+  intros [->|[j [b [-> H]]]] [H2|[j2 [b2 [E2 H2]]]]; try discriminate.
+  - unfold benc in H2. apply bcode_inj. congruence.
+  - inversion E2; subst. congruence.
+Qed.
+
+Lemma decode n m : reach g n m -> forall x y, own n x -> own m y ->
+  ((is_cellnet n = true \/ is_cellnet m = false) -> dreach sts x y) /\ (x = y \/ dreach sts x y).
+Proof.
+  induction 1 as [n m E|n k m E R IH]; intros x y On Om.
+  - destruct n as [[|j] b|c].
+    + now apply succs_top in E.
+    + apply succs_cell in E as [x' [Hx [->|[y' [-> Hd]]]]].
+      * destruct Om as [Om|[j2 [b2 [Om _]]]]; discriminate.
+      * assert (x = x') as -> by (eapply own_fun; [exact On|right; eauto]).
+        assert (y = y') as -> by (eapply own_fun; [exact Om|now left]).
+        split; [intros _|right]; now apply dreach_one.
+    + apply succs_late in E as [i [x' [H1 [H2 ->]]]].
+      assert (x = x') as -> by (eapply own_fun; [exact On|left; unfold benc; congruence]).
+      assert (y = x') as -> by (eapply own_fun; [exact Om|right; eauto]).
+      split; [intros [H|H]; discriminate|now left].
+  - destruct (reach_first _ _ _ R) as [k' Ek]. destruct (edge_owner _ _ Ek) as [z Oz].
+    destruct (IH z y Oz Om) as [IH1 IH2].
+    destruct n as [[|j] b|c].
+    + now apply succs_top in E.
+    + apply succs_cell in E as [x' [Hx [->|[z' [-> Hd]]]]].
+      * destruct Oz as [Oz|[j2 [b2 [Oz _]]]]; discriminate.
+      * assert (x = x') as -> by (eapply own_fun; [exact On|right; eauto]).
+        assert (z = z') as -> by (eapply own_fun; [exact Oz|now left]).
+        assert (dreach sts x' y) by (destruct IH2 as [<-|IH2]; [now apply dreach_one|eapply dreach_step; eassumption]).
+        auto.
+    + apply succs_late in E as [i [x' [H1 [H2 ->]]]].
+      assert (x = x') as -> by (eapply own_fun; [exact On|left; unfold benc; congruence]).
+      assert (z = x') as -> by (eapply own_fun; [exact Oz|right; eauto]).
+      split; [intros _; apply IH1; now left|exact IH2].
+Qed.
+
+Lemma encode_step x y : dep1 sts x y ->
+  exists j, nth_error D j = Some x /\ edge g (benc x) (NC (S j) 0) /\ edge g (NC (S j) 0) (benc y).
+Proof.
+  intro Hd. assert (In x D) as Hin.
+  { destruct Hd as [l [H _]]. unfold D. apply bdedup_In. apply in_map_iff. exists (x, l). auto. }
+  apply In_nth_error in Hin as [j Hj]. exists j. split; [assumption|]. split.
+  - unfold edge, succs. simpl. unfold conn_of, g, dep_graph_netlist. simpl. fold D.
+    rewrite (conn_from_found D 0 j x (bdedup_NoDup _) Hj). simpl. now left.
+  - unfold edge, succs. cbn [is_const]. rewrite g_cells, Hj. simpl. right. apply in_map. now apply deps_of_In.
+Qed.
+
+Lemma encode x y : dreach sts x y -> reach g (benc x) (benc y).
+Proof.
+  induction 1 as [x y Hd|x y z Hd R IH].
+  - destruct (encode_step x y Hd) as [j [_ [E1 E2]]]. eapply reach_step; [exact E1|now apply reach_one].
+  - destruct (encode_step x y Hd) as [j [_ [E1 E2]]].
+    eapply reach_step; [exact E1|]. eapply reach_step; [exact E2|exact IH].
+Qed.
+
+Lemma cell_roots_match : forall (l : list bit) k f,
+  (forall x, exists en v, f x = CMatch 1 en v) ->
+  forall j, j < length l -> In (NC (k + j) 0) (cell_roots (map f l) k).
+Proof.
+  induction l as [|x l IH]; intros k f Hf j Hj; simpl in *; [lia|].
+  destruct (Hf x) as [en [v ->]]. simpl. destruct j as [|j].
+  - left. now rewrite Nat.add_0_r.
+  - right. replace (k + S j) with (S k + j) by lia. apply IH; [assumption|lia].
+Qed.
+
+Lemma g_closed : closed_nets g.
+Proof.
+  intros n m _ E. destruct n as [[|j] b|c].
+  - now apply succs_top in E.
+  - apply succs_cell in E as [x [Hx [->|[y [-> [l [H1 H2]]]]]]].
+    + right. now left.
+    + right. right. unfold roots. apply in_or_app. right. unfold g, dep_graph_netlist. simpl. rewrite app_nil_r.
+      apply in_map. apply in_or_app. right. apply in_flat_map. exists (x, l). auto.
+  - apply succs_late in E as [i [x [H1 [H2 ->]]]].
+    right. right. unfold roots. apply in_or_app. left. unfold g, dep_graph_netlist. simpl. fold D.
+    apply (cell_roots_match D 1 (fun x0 => CMatch 1 (NC 0 1) (map benc (deps_of deps x0)))); [intro; eauto|].
+    apply nth_error_Some. congruence.
+Qed.
+
+Lemma benc_in_nets x y : dep1 sts x y -> In (benc x) (all_nets g).
+Proof.
+  intros [l [H _]]. right. right. unfold roots. apply in_or_app. right.
+  unfold g, dep_graph_netlist. simpl. rewrite app_nil_r. apply in_map. apply in_or_app. left.
+  apply in_map_iff. exists (x, l). auto.
+Qed.
+
+(* For ALL designs of the statement language: the oracle run by the harness says "cyclic" exactly when some signal
+   bit depends on itself through >= 1 step of the dependency SPEC *)
+Theorem design_cyclicb_iff : design_cyclicb sts = true <-> design_cyclic sts.
+Proof.
+  unfold design_cyclicb. fold deps. fold g. split.
+  - destruct (check_cycles g) as [|p| |] eqn:E; try discriminate. intros _.
+    destruct (dfs_sound g p eq_refl E) as [s [m [_ [_ [_ [_ R]]]]]].
+    assert (exists x, own s x) as [x Ox] by (destruct (reach_first _ _ _ R) as [k Ek]; eapply edge_owner; exact Ek).
+    exists x. destruct (decode s s R x x Ox Ox) as [H _]. apply H. destruct s; auto.
+  - intros [x R].
+    assert (exists z, dep1 sts x z) as [z Hz] by (inversion R; eauto).
+    assert (In (benc x) (all_nets g)) as Hin by (eapply benc_in_nets; exact Hz).
+    pose proof (encode x x R) as Rg.
+    pose proof (dfs_complete g) as C. pose proof (dfs_no_assert g) as A.
+    assert (check_cycles g <> VFuel) as F.
+    { unfold check_cycles. apply top_loop_fuel; [exact g_closed|lia|]. intros r Hr. right. right. exact Hr. }
+    destruct (check_cycles g) as [|p| |]; [exfalso; exact (C eq_refl _ Hin Rg)|reflexivity|congruence|congruence].
+Qed.
+End Oracle.
